@@ -175,6 +175,12 @@ class ProcessJob:
         """ProcessCommand.update_identifier is the only writer of identifier / instance_status and sets both"""
         return (command.identifier is None) == (command.instance_status is None) and command.identifier != ''
 
+    def pre_no_target_yet_when_distributed(self, command):
+        """call sites: for ALL_INSTANCES applications nothing assigns a target before process_job (on_command_added and
+        before() only do so for restricted distributions) and ApplicationJobs.next hands every command to process_job
+        exactly once (it is popped from planned_jobs first)"""
+        return implies(self.distribution == DistributionRules.ALL_INSTANCES, command.identifier is None)
+
     def post_only_stopped_processes(self, command, result, old):
         """'a process that is already running ... is not requested again'"""
         return implies(not old.command.process._state in STOPPED_STATES, no_effect() and not result)
@@ -198,11 +204,12 @@ class ProcessJob:
         return implies(count_effects('start_command') == 1,
                        rule_permits(self.supvisors.mapper, rule, command.identifier))
 
-    def post_cap_all_pending(self, command):
-        """'whose node load - the expected_loading of everything running on that node plus the starts already requested
-        there - stays at or below 100 once the program's expected_loading is added'"""
-        return implies(count_effects('start_command') == 1,
-                       node_load_all(self.supvisors, command.identifier) + command.process.rules.expected_load <= 100)
+    # The statement's cap clause - node_load_all(target) + expected_load <= 100, with ALL the starts already requested
+    # (AllPending) - is not derivable: the code only bounds the load with the requests of its own application job
+    # (GetLoadRequests.post_part_of_all_pending gives own <= all, the wrong direction).  z3 refutes the clause on some
+    # paths but not within the budget on all of them (large satisfiable context), so the decisive obligation is the
+    # structural one of pyvc/structural_c04.py: the request map handed to get_supvisors_instance must be the Starter-level
+    # one.  It is refuted on the pinned tree (finding C04-own-application-requests-only, reproduced natively).
 
     def post_no_resource(self, command, result, old):
         """'If no instance qualifies nothing is sent and the process is reported FATAL ('No resource available')'"""
@@ -272,7 +279,7 @@ class AssignStereotypes:
         return [contents(self.stereotypes), field(self._instances[identifier], 'stereotypes')]
 
 
-@contract('internal_com.mapper:SupvisorsMapper.identify', props=['C04', 'C14'])
+@contract('internal_com.mapper:SupvisorsMapper.identify', props=['C04'])
 class MapperIdentify:
     """DESIGN C04.4: 'needs the mapper invariant "nodes[m] is duplicate-free", proved over identify' (the only writer of
     mapper.nodes, structural scan).  Statement: node load = 'the expected_loading of everything running on that node'
